@@ -905,7 +905,7 @@ func SearchStreams(ctx context.Context, indexes []*Reader, limitIDs *bitmask.Lon
 	}
 	qs = qs.InlineTagFilters(tagDetails)
 
-	var sortingLess func(a, b *Stream) bool
+	var sortingLess, sortingLookupLess func(a, b *Stream) bool
 	switch len(sorting) {
 	case 0:
 		// default search order is -ftime
@@ -950,6 +950,11 @@ func SearchStreams(ctx context.Context, indexes []*Reader, limitIDs *bitmask.Lon
 			}
 			return false
 		}
+		// the sorting lookup is only ordered by the first sorting key
+		sortingLookupLess = sorters[0]
+	}
+	if sortingLookupLess == nil {
+		sortingLookupLess = sortingLess
 	}
 
 	groupingData := (*grouper)(nil)
@@ -1060,11 +1065,11 @@ func SearchStreams(ctx context.Context, indexes []*Reader, limitIDs *bitmask.Lon
 		results := resultData{
 			matchingQueryPart: make([]bitmask.ConnectedBitmask, len(qs)),
 		}
-		sorter := sortingLess
+		sorter, lookupSorter := sortingLess, sortingLookupLess
 		resultLimit := limit + skip
 		limitIDs := limitIDs
 		if subQuery != "" {
-			sorter = nil
+			sorter, lookupSorter = nil, nil
 			resultLimit = 0
 			limitIDs = nil
 		}
@@ -1105,7 +1110,7 @@ func SearchStreams(ctx context.Context, indexes []*Reader, limitIDs *bitmask.Lon
 				}
 				queryParts = append(queryParts, queryPart)
 			}
-			err := idx.searchStreams(ctx, &results, allResults, queryParts, groupingData, sorter, resultLimit, sortingLookup)
+			err := idx.searchStreams(ctx, &results, allResults, queryParts, groupingData, sorter, lookupSorter, resultLimit, sortingLookup)
 			if err != nil {
 				return nil, false, nil, err
 			}
@@ -1126,7 +1131,13 @@ func SearchStreams(ctx context.Context, indexes []*Reader, limitIDs *bitmask.Lon
 	return results.streams[skip:], results.resultDropped != 0, dataRegexes, nil
 }
 
-func (r *Reader) searchStreams(ctx context.Context, result *resultData, subQueryResults map[string]resultData, queryParts []queryPart, grouper *grouper, sortingLess func(a, b *Stream) bool, limit uint, sortingLookup func() ([]uint32, error)) error {
+func (r *Reader) searchStreams(ctx context.Context, result *resultData, subQueryResults map[string]resultData, queryParts []queryPart, grouper *grouper, sortingLess, sortingLookupLess func(a, b *Stream) bool, limit uint, sortingLookup func() ([]uint32, error)) error {
+	// the streams of the sorting lookup are only ordered by the first sorting key, a scan of
+	// it may only stop at a stream that is worse than the last result regarding this key,
+	// streams following it could otherwise still beat the last result by a later sorting key.
+	noLaterStreamCanBeBetter := func(ss *Stream) bool {
+		return sortingLookupLess == nil || sortingLookupLess(result.streams[limit-1], ss)
+	}
 	// apply filters to lookup results or all streams, if no lookups could be used
 	filterAndAddToResult := func(activeQueryParts bitmask.ShortBitmask, si uint32) (bool, error) {
 		if err := ctx.Err(); err != nil {
@@ -1150,7 +1161,7 @@ func (r *Reader) searchStreams(ctx context.Context, result *resultData, subQuery
 
 		// check if the sorting and limit would allow this stream
 		if limitReached && !sortingLess(ss, result.streams[limit-1]) {
-			return true, nil
+			return noLaterStreamCanBeBetter(ss), nil
 		}
 
 		// check if the sorting within the groupKey allow this stream
@@ -1248,7 +1259,7 @@ func (r *Reader) searchStreams(ctx context.Context, result *resultData, subQuery
 			} else {
 				// we have a limit and are worse than the last
 				result.resultDropped++
-				return true, nil
+				return noLaterStreamCanBeBetter(ss), nil
 			}
 		}
 
